@@ -299,6 +299,7 @@ E4_FAMILIES = [
     ("skip", "conditionally skipped instruction followed by every instruction and a reload (196)"),
     ("loop", "loop with every choice of (pre-header, body, exit) instruction (2744)"),
     ("call", "call between every pair of instructions (196)"),
+    ("arith", "every 3-instruction body over a 14-instruction arithmetic alphabet: constants, lui, mul/mulhu/div/rem, division by zero, shifts by large amounts, x0-sourced compares, la/lw (2744; thorough: 4 instructions, 38416)"),
     ("func", "every function body of 1-3 instructions over a 10-instruction save/restore alphabet, between the frame push and pop (1110; thorough: 1-4, 11110)"),
 ]
 for fam, d in E4_FAMILIES:
